@@ -6,8 +6,7 @@ from sa.astq import norm_text
 from sa.idioms import guarded, reach_under, attr_truth
 from sa.project import dotted, walk_local, AnalysisError
 
-EXPLANATION = (
-    "Shape of Arbiter.reload_from_config decided on its CFG and def-use chains: "
+EXPLANATION = (    "Shape of Arbiter.reload_from_config decided on its CFG and def-use chains: "
     "R1 the value that decides `changed` depends on added and removed option "
     "keys as well as changed ones; R2 every branch that changes a live watcher "
     "leaves the baseline the next reload diffs against equal to the new file "
@@ -19,7 +18,9 @@ EXPLANATION = (
     "start_watcher over added names; R5 both sides of the comparison are "
     "normalised the same way (parse_env_dict, the same env-exception filter) and "
     "get_config sorts its lists; R6 an [circus]-section change restarts "
-    "everything and returns before the per-watcher logic. Decides these "
+    "everything and returns before the per-watcher logic."
+    "R2 also requires helpers that modify their dict argument (get_stream) to be given a copy, so that building a watcher does not damage the remembered baseline. "
+    "Decides these "
     "necessary conditions, not equality with a fresh start for all files.")
 ASSUMPTIONS = ["the [circus] and socket sections are held fixed (property text)"]
 
